@@ -138,6 +138,14 @@ def install_main_env(ctx, eng, opts_holder):
                 st.pc.append(z3.Implies(fs_atom("is_dir", p), fs_atom("exists", p)))
             return Outcome(BoolV(fs_atom(name, p)), events=[Event("Path::" + name, [p], None)])
         return h
+    # identity of two paths (libfs::is_same_file): a fact per pair, like text equality
+    def s_same(eng, st, callee, args, dty):
+        a, b = pexpr(eng, st, args[0]), pexpr(eng, st, args[1])
+        v = alias_atom(a, b)
+        # (the failing stat inside is_same_file is `?`-propagated: one more early return, not explored per pair to keep the
+        # product over sources small)
+        return Outcome(ok(BoolV(v)), events=[Event("identity-check", [a, b], BoolV(v))])
+    S(r"^(libfs::)?is_same_file$", s_same)
     front(r"^(std::path::)?Path::exists$", s_probe("exists"))
     front(r"^(std::path::)?Path::is_dir$", s_probe("is_dir"))
 
@@ -191,6 +199,14 @@ def fs_atom(name, p):
     return z3.Bool("%s_%s" % (name, re.sub(r"\W+", "_", repr(p))))
 
 
+def alias_atom(a, b):
+    """a and b designate the same inode (another spelling, a link)"""
+    if a == b:
+        return z3.BoolVal(True)
+    x, y = sorted([repr(a), repr(b)])
+    return z3.Bool("same_inode_%s__%s" % (re.sub(r"\W+", "_", x), re.sub(r"\W+", "_", y)))
+
+
 def text_eq(a, b):
     if a == b:
         return z3.BoolVal(True)
@@ -220,13 +236,21 @@ def _reference_invalid(p, names, with_td, vals, sources, dest_expr, fsm, texteq)
         inv.append(z3.Not(B("exists", s)))
         inv.append(z3.And(B("is_dir", s), z3.Not(vals["recursive"].t)))
         inv.append(text_eq(s, dest_expr))
+        # ... and not only textually: the destination (or the path the source maps to) may be the source itself under another
+        # spelling or through a link -- `xcp -r d ./d` would copy d into itself, `xcp ../in/g f .` fail after writing g
+        inv.append(z3.And(B("exists", dest_expr), alias_atom(s, dest_expr)))
         for base, cond in ((("join", dest_expr, ("last", s)), into), (dest_expr, z3.Not(into))):
             inv.append(z3.And(cond, text_eq(s, base)))
+            inv.append(z3.And(cond, B("exists", base), alias_atom(s, base)))
     return inv
 
 
 def _fs_axioms(sources, dest_expr):
     ax = []
+    for s_ in list(sources or []):
+        if dest_expr:
+            for x in (dest_expr, ("join", dest_expr, ("last", s_))):
+                ax.append(z3.Implies(text_eq(s_, x), alias_atom(s_, x)))
     for e in list(sources or []) + ([dest_expr] if dest_expr else []):
         ax.append(z3.Implies(fs_atom("is_dir", e), fs_atom("exists", e)))
     return ax
@@ -278,7 +302,9 @@ def lemma_main(ctx):
                 started += 1
                 inv = _reference_invalid(p, names, with_td, vals, sources, dest_expr, fsm, texteq)
                 ax = _fs_axioms(sources, dest_expr)
-                for i, c in enumerate(inv):
+                # one query for all rejection classes; only a failing path is taken apart class by class
+                okall, _m = eng.valid(p.pc + ax, z3.Not(z3.Or(*inv)))
+                for i, c in (enumerate(inv) if not okall else [(-1, z3.Or(*inv))]):
                     ctx.lemma(eng, "C16: the copy is never started for an invocation that must be rejected", p.pc + ax, z3.Not(c),
                               info={"class": i, "args": npaths, "target_directory": with_td, "trace": tn[:12]})
                 if not ld or ev.index(ld[0]) > ev.index(spawn[0]):
